@@ -11,7 +11,7 @@
    `spec_expect` (Model/C11_Check.v, hand-written, independent of the handler code) = the operation the route names with
    the rendered CID / path / peer / options of the environment; `performed calls exp` = calls are exp in order, each
    successful except possibly the last one issued. *)
-From V Require Import Base.Common Base.C11_Http Gen.RestRoutes Gen.RestClient Model.C11_Rest Model.C11_Check
+From V Require Import Base.Common Base.C11_Http Gen.RestRoutes Gen.RestClient Model.C11_Rest Model.C11_Check Model.C11_Tables
   Proofs.C11_Rest Proofs.C11_Client Proofs.C11_ClientC08.
 From V Require Model.C08_Codec Model.C08_Query Model.C08_Status.
 From Coq Require Import Permutation.
